@@ -4,7 +4,7 @@ import gc
 from .. import conncheck, connmodel, world as W
 
 SERVER = ['eof', 'text', 'ping', 'frag-text', 'frag-end', 'close-1000', 'bad-utf8', 'reserved-op', 'silence', 'two', 'err']
-MECHS = ['continue', 'break', 'raise', 'gen.close', 'with-block']
+MECHS = ['continue', 'break', 'raise', 'gen.close', 'with-block', 'reconnect+close']
 
 
 class Boom(Exception):
@@ -28,6 +28,11 @@ def consume(world, ws, gen, model, state):
         if m == 'gen.close':
             gen.close()
             break
+        if m == 'reconnect+close':
+            # the application starts a new connection on the same object before the old iterator is finalised
+            state['second'] = ws.connect()
+            gen.close()
+            break
         raise Boom('handler failed at %s' % e.name)
     else:
         state['finished'] = True
@@ -45,6 +50,7 @@ class C13(conncheck.ConnCheck):
         'transport is the fake socket/selector of lv.world',
     ]
     kinds = ('socket-leak', 'selector-leak', 'abandon-exception')
+    # 'reconnect+close': the application calls connect() again on the same object, then closes the old iterator
     expect_sites = ('abandon@connecting', 'abandon@connected', 'abandon@ready', 'abandon@poll/inner', 'abandon@poll/outer',
                     'abandon@text', 'abandon@ping', 'abandon@closing', 'abandon@closed', 'abandon@protocol_error',
                     'abandon@rejected', 'abandon@disconnected', 'abandon@connect_fail', 'abandon@unresponsive', 'tls')
@@ -64,6 +70,8 @@ class C13(conncheck.ConnCheck):
             out.append({'name': 'plain/' + hs, 'server': SERVER, 'handshake': [hs], 'depth': d if hs != 'hs-404' else 2})
         out.append({'name': 'app-close', 'server': SERVER, 'handshake': ['hs-ok'], 'app': ['close'], 'depth': d if d is None else 3,
                     'max_dev': 2})
+        out.append({'name': 'send-fail', 'server': ['eof', 'text', 'ping', 'silence', 'close-1000'], 'handshake': ['hs-ok'],
+                    'app': ['send_text!fail'], 'depth': d if d is None else 3, 'max_dev': 2, 'strict': False})
         out.append({'name': 'ping-timeout', 'server': ['eof', 'silence', 'text', 'pong'], 'handshake': ['hs-ok'], 'depth': 5,
                     'connect': {'ping_timeout': 7, 'ping_rate': 0}, 'timers': 'absolute', 'drop': ()})
         out.append({'name': 'tls', 'server': SERVER, 'handshake': ['hs-ok'], 'depth': 3, 'url': 'wss://example.com/x'})
@@ -100,6 +108,10 @@ class C13(conncheck.ConnCheck):
             except BaseException as error:  # noqa
                 model.problems.append(('abandon-exception', 'abandoning by %s at %s raised %r' % (state.get('mech'), state.get('at'), error)))
             if not run.truncated and not run.horizon and 'mech' in state:
+                second = state.pop('second', None)
+                if second is not None:
+                    second.close()
+                    del second
                 gc.collect()
                 at = state['at']
                 if at == 'poll':
